@@ -81,6 +81,11 @@ def snapshot_bins(ctx):
                 shutil.copyfile(info[t], dst)
                 os.chmod(dst, 0o755)
                 out[t] = dst
+            for link in ("unxz", "xzcat", "lzma", "unlzma", "lzcat"):      # the names xz is installed under
+                lp = os.path.join(d, link)
+                if not os.path.lexists(lp):
+                    os.symlink("xz", lp)
+                out[link] = lp
             os.chmod(ctx.workdir, 0o755); os.chmod(d, 0o755)
             return out
         except FileNotFoundError as e:
